@@ -10,14 +10,16 @@ CFG = dict(
          "f64, f32, Option<f64>; backends Vec (index body, returned and caller buffer), VecDeque / option view (iterator body); "
          "compared with the model at Coq's binary64 within 1e-9 (1e-7 skew/kurt) relative to max(1,|x|,4e4), nullness "
          "exact; a case is non-trivial when the series is non-empty (nt=0 otherwise)",
-    theorem_hint="Props/C01.v: C01_state_tracks_window, C01_ts_v{sum,mean,var,std,ewm,wma}",
-    level_text="Proof (Coq, carrier option R): the generic add-emit-remove sliding invariant (Proofs/Sliding.v) gives, for every "
-               "series, window >= 1, min_periods, position and both driver bodies, that the accumulator holds exactly the count "
-               "and power sums of the non-null window (C01_state_tracks_window: covers sum, mean, std, var, skew, kurt), and "
-               "closed-form theorems output_i = textbook statistic of the window for sum, mean, sample variance, sample std "
-               "(with the EPS floor explicit and bounded), exponentially weighted mean (normalised weighted average) and "
-               "linearly weighted mean. Partial: skew/kurt closed forms and the fdiff characterisation are covered by the state "
-               "invariant / the correspondence only (see DESIGN). The model is tied to the code by ~14k differential cases per run.",
+    theorem_hint="Props/C01.v: C01_state_tracks_window, C01_ts_v{sum,mean,var,std,skew,kurt,ewm,wma}, C01_ts_fdiff",
+    level_text="Proof (Coq, carrier option R = exact reals + absorbing NaN): the generic add-emit-remove sliding invariant "
+               "(Proofs/Sliding.v) gives, for every series, window >= 1, min_periods, position and both driver bodies, that the "
+               "accumulator holds exactly the count and power sums of the non-null window (C01_state_tracks_window), and 15 "
+               "theorems output_i = textbook statistic of the window for sum, mean, sample variance, sample std (EPS floor "
+               "explicit and bounded by 2 EPS), adjusted skewness, adjusted excess kurtosis, exponentially weighted mean "
+               "(= normalised weighted average), linearly weighted mean, plain fractional difference (weights (-1)^k C(d,k) "
+               "on the k-th most recent element, warm-up included) and the plain family = null-aware family on null-free input. "
+               "Partial: the null-aware ts_vfdiff is covered by model + correspondence only. The model is tied to the code by "
+               "~14k differential cases per run at Coq's binary64.",
     level_note="Trusted: Coq kernel + Reals axioms (sig_forall_dec, sig_not_dec, functional_extensionality_dep); the model of "
                "features.rs/rolling.rs; IEEE rounding is outside the theorems (exact reals) and absorbed by the 1e-9 tolerance; "
                "C++ special::binom modelled by the generalised binomial product; f64::powi modelled as compiler-rt's square-and-multiply.",
